@@ -70,6 +70,7 @@ func HandleCommonWriteErrors(w http.ResponseWriter, r *http.Request, err error) 
 func HandleCommonPaginationErrors(w http.ResponseWriter, r *http.Request, err error) {
 	switch {
 	case errors.Is(err, storagecommon.ErrInvalidQuery{}) ||
+		errors.Is(err, ledger.ErrInvalidQuery{}) ||
 		errors.Is(err, ledger.ErrMissingFeature{}) ||
 		errors.Is(err, storagecommon.ErrNotPaginatedField{}) ||
 		errors.Is(err, ledgercontroller.ErrSchemaValidationError{}):
